@@ -16,6 +16,10 @@ type Clause struct {
 	Src   string
 	Loop  int
 	Free  bool // assumed, not checked ("free" invariant / requires) — listed as assumption
+	Unfold []string // recursive/opaque definitions to unfold when this clause is checked
+	Local  bool     // loop invariant that is forgotten when the loop is left (keeps later queries small)
+	EntryOnly bool  // proved when the loop is entered and used for the following entry checks only
+	AtExit    bool  // proved (and then assumed) on every edge that leaves the loop
 }
 
 type Contract struct {
@@ -33,6 +37,7 @@ type Contract struct {
 	Flags      map[string]bool
 	Unfold     int
 	UnfoldNames []string
+	CutLoops    map[int]bool // loops at whose head everything but the precondition and the invariants is forgotten
 	Line       int
 	Props      []string
 }
@@ -58,6 +63,7 @@ type Construct struct {
 }
 
 var labelRe = regexp.MustCompile(`^([A-Za-z0-9_.\-]+):\s`)
+var unfoldRe = regexp.MustCompile(`^unfold\(([A-Za-z0-9_:,\s]+)\)\s*`)
 var propsRe = regexp.MustCompile(`^\[([A-Za-z0-9,\s]+)\]\s*`)
 
 func LoadContracts(path string) (*Contracts, error) {
@@ -176,6 +182,19 @@ func LoadContracts(path string) (*Contracts, error) {
 					cur.ModSrc = append(cur.ModSrc, m)
 				}
 			case "requires", "ensures", "panics", "loop":
+				if first == "loop" {
+					if f := strings.Fields(rest); len(f) == 2 && f[1] == "cut" {
+						n, err := strconv.Atoi(f[0])
+						if err != nil {
+							return nil, fail("bad loop ordinal %q", f[0])
+						}
+						if cur.CutLoops == nil {
+							cur.CutLoops = map[int]bool{}
+						}
+						cur.CutLoops[n] = true
+						continue
+					}
+				}
 				cl := &Clause{Kind: first, Free: free}
 				if first == "loop" {
 					// loop N invariant ...
@@ -190,6 +209,18 @@ func LoadContracts(path string) (*Contracts, error) {
 					cl.Kind = "invariant"
 					cl.Loop = n
 					rest = strings.TrimSpace(rest[strings.Index(rest, "invariant")+len("invariant"):])
+					if strings.HasPrefix(rest, "local ") {
+						cl.Local = true
+						rest = strings.TrimSpace(rest[len("local "):])
+					}
+					if strings.HasPrefix(rest, "entry ") {
+						cl.EntryOnly = true
+						rest = strings.TrimSpace(rest[len("entry "):])
+					}
+					if strings.HasPrefix(rest, "exit ") {
+						cl.AtExit = true
+						rest = strings.TrimSpace(rest[len("exit "):])
+					}
 				}
 				if m := propsRe.FindStringSubmatch(rest); m != nil {
 					for _, p := range strings.Split(m[1], ",") {
@@ -197,8 +228,16 @@ func LoadContracts(path string) (*Contracts, error) {
 					}
 					rest = rest[len(m[0]):]
 				}
+				if m := unfoldRe.FindStringSubmatch(rest); m != nil {
+					cl.Unfold = strings.Fields(m[1])
+					rest = rest[len(m[0]):]
+				}
 				if m := labelRe.FindStringSubmatch(rest); m != nil {
 					cl.Label = m[1]
+					rest = rest[len(m[0]):]
+				}
+				if m := unfoldRe.FindStringSubmatch(rest); m != nil {
+					cl.Unfold = strings.Fields(m[1])
 					rest = rest[len(m[0]):]
 				}
 				e, err := ParseExpr(rest)
